@@ -181,6 +181,21 @@ CHECKS["C14"] = dict(
    technique="Coq refinement + liveness-by-counting proofs on the receiver model + flush-call trace replay correspondence + samedec black-box runs",
    ref="§5 C14, §11")
 
+CHECKS["C10"] = dict(
+   text="Discrete half proved, float half sampled (partial). Machine-checked for EVERY symbol stream: the link-layer invariant (no byte "
+        "clock => not locked; sample history not full => no byte clock; power history within capacity) holds in every reachable state; "
+        "from any such state - mid-burst, locked, searching, whatever the framer holds - 32 symbols of silence leave the squelch without "
+        "byte clock and unlocked and the framer idle (never left deaf by its own state machine), and the sync gate is then open to the next "
+        "preamble; no burst is read forever; the discrete part has no reachable panic site (squelch expect(), C17's construction sites); "
+        "once what a hostile history left in the assembler has expired it answers every further history exactly as a new one; two intact "
+        "copies of a header outvote any burst left next to them (C03). Sampled on the real receiver: hostile prefixes composed from a "
+        "17-generator library (clipping square waves up to 2^20, DC steps, noise, tones, endless preamble/carrier, truncated and malformed "
+        "transmissions, level jumps, preamble-like tails), a 1..2 s gap, a clean transmission: no panic, finite state, decoded exactly, "
+        "tick-trace replay equal.",
+   note=RX_NOTE,
+   technique="Coq invariant + recovery proofs over symbol streams + tick-trace replay correspondence + hostile-audio sampling under catch_unwind",
+   ref="§5 C10, §11")
+
 NOT_APPLICABLE = {}
 
 def main():
